@@ -4,6 +4,7 @@ import (
 	"context"
 	"fmt"
 	"strconv"
+	"strings"
 	"testing"
 
 	"github.com/conduitio/conduit-commons/config"
@@ -22,6 +23,7 @@ type CondCase struct {
 	Test     string `json:"test"`      // "conditional"
 	Cond     bool   `json:"cond"`      // processor has the condition `m == "1"`
 	Pattern  []int  `json:"pattern"`   // per input record: 1 = condition matches
+	Fail     []int  `json:"fail"`      // per input record: 1 = the condition fails to evaluate (output is not a boolean)
 	Out      []int  `json:"out"`       // kinds of the plugin output, any length
 	CapExtra int    `json:"cap_extra"` // spare capacity of the slice the plugin returns (filled with garbage results)
 }
@@ -40,9 +42,18 @@ var condClasses = []string{clsNoCond, clsNoMatch, clsFull, clsShortTail, clsShor
 
 const keyCondShortPanic = "C09/panic/RunnableProcessor.Process/" + clsShortInner
 
+// evaluated is the number of records the condition is evaluated for successfully.
+func (c CondCase) evaluated() int {
+	if !c.Cond {
+		return len(c.Pattern)
+	}
+	return firstFail(c.Pattern, c.Fail)
+}
+
+// matching counts the matching records among the successfully evaluated ones.
 func (c CondCase) matching() int {
 	k := 0
-	for _, b := range c.Pattern {
+	for _, b := range c.Pattern[:c.evaluated()] {
 		k += b
 	}
 	return k
@@ -53,7 +64,7 @@ func (c CondCase) class() string {
 	if !c.Cond {
 		return clsNoCond
 	}
-	return condShapeClass(c.Pattern, len(c.Out))
+	return condShapeClass(c.Pattern[:c.evaluated()], len(c.Out))
 }
 
 // condShapeClass classifies (match pattern, plugin output length).
@@ -193,6 +204,9 @@ func runCond(c CondCase) (r condResult) {
 	r.orig = make([]opencdc.Record, len(c.Pattern))
 	for i, b := range c.Pattern {
 		r.recs[i] = mkRecord(i, []byte("p"+strconv.Itoa(i)), b)
+		if i < len(c.Fail) && c.Fail[i] == 1 {
+			r.recs[i].Metadata[metaCond] = condJunk
+		}
 		r.orig[i] = r.recs[i].Clone()
 	}
 	func() {
@@ -220,83 +234,152 @@ func checkCond(c CondCase, r condResult) (key, detail string) {
 		return "C09/panic/RunnableProcessor.Process/" + cls,
 			fmt.Sprintf("RunnableProcessor.Process panicked (%s): %s\n%s", r.site, r.panicVal, trimStack(r.stack, 24))
 	}
-	n, k, m := len(c.Pattern), c.matching(), len(c.Out)
-	// what the plugin must have been given
-	wantIn := make([]int, 0, n)
-	for i, b := range c.Pattern {
-		if !c.Cond || b == 1 {
-			wantIn = append(wantIn, i)
+	return refMerge(mergeObs{cond: c.Cond, pattern: c.Pattern, fail: c.Fail, orig: r.orig, res: r.res,
+		plugCalls: r.plug.calls, plugIn: r.plug.gotIn, plugOut: r.plug.out})
+}
+
+// mergeObs is one observed RunnableProcessor.Process call.
+type mergeObs struct {
+	cond      bool
+	pattern   []int            // per input record: 1 = the condition matches
+	fail      []int            // per input record: 1 = the condition fails to evaluate (may be nil)
+	orig      []opencdc.Record // deep copies of the input, taken before the call
+	res       []sdk.ProcessedRecord
+	plugCalls int // plugin Process calls made during the call
+	plugIn    []opencdc.Record
+	plugOut   []sdk.ProcessedRecord
+}
+
+// firstFail is the index of the first record whose condition fails to evaluate (len if none).
+func firstFail(pattern, fail []int) int {
+	for i := range pattern {
+		if i < len(fail) && fail[i] == 1 {
+			return i
 		}
 	}
-	if c.Cond && k == 0 {
-		if r.plug.calls != 0 {
-			return "C09/cond-merge/plugin-input/" + cls, "plugin was called although no record matches the condition"
+	return len(pattern)
+}
+
+func isCondError(r sdk.ProcessedRecord) bool {
+	e, ok := r.(sdk.ErrorRecord)
+	return ok && e.Error != nil && strings.Contains(e.Error.Error(), "failed evaluating condition")
+}
+
+// refMerge is the reference merge. From the statement: records that do not match pass through
+// unchanged in their original place and every result stays aligned with the record it belongs
+// to. From the code's documentation: the condition is evaluated record by record and evaluation
+// stops at the first record k for which it fails; the records before k are handled as usual;
+// the results end right before the first matching record the plugin gave no result for; the
+// condition error is reported at index k - the record it belongs to - when every record before
+// k has a result, and is left out otherwise; records after k are not part of the output.
+func refMerge(o mergeObs) (key, detail string) {
+	n := len(o.pattern)
+	if !o.cond {
+		if o.plugCalls != 1 || len(o.plugIn) != n {
+			return "C09/cond-merge/plugin-input/" + clsNoCond, fmt.Sprintf("plugin calls=%d, got %d of %d records", o.plugCalls, len(o.plugIn), n)
 		}
-	} else {
-		if r.plug.calls != 1 || len(r.plug.gotIn) != len(wantIn) {
-			return "C09/cond-merge/plugin-input/" + cls,
-				fmt.Sprintf("plugin calls=%d, got %d records, want the %d matching ones", r.plug.calls, len(r.plug.gotIn), len(wantIn))
-		}
-		for j, i := range wantIn {
-			if !sameRecord(r.plug.gotIn[j], r.orig[i]) {
-				return "C09/cond-merge/plugin-input/" + cls, fmt.Sprintf("plugin input %d is not input record %d", j, i)
-			}
-		}
-	}
-	if !c.Cond {
 		// without a condition the plugin output is handed on untouched
-		if len(r.res) != m {
-			return "C09/no-condition/output-altered", fmt.Sprintf("plugin returned %d results, engine handed on %d", m, len(r.res))
+		if len(o.res) != len(o.plugOut) {
+			return "C09/no-condition/output-altered", fmt.Sprintf("plugin returned %d results, engine handed on %d", len(o.plugOut), len(o.res))
 		}
-		for j := range r.res {
-			if !sameResult(r.res[j], r.plug.out[j]) {
-				return "C09/no-condition/output-altered", fmt.Sprintf("result %d differs from the plugin's (%s vs %s)", j, kindOfResult(r.res[j]), kindOfResult(r.plug.out[j]))
+		for j := range o.res {
+			if !sameResult(o.res[j], o.plugOut[j]) {
+				return "C09/no-condition/output-altered", fmt.Sprintf("result %d differs from the plugin's (%s vs %s)", j, kindOfResult(o.res[j]), kindOfResult(o.plugOut[j]))
 			}
 		}
 		return "", ""
 	}
+	kf := firstFail(o.pattern, o.fail) // records [0,kf) are evaluated successfully
+	failed := kf < n
+	k := 0 // matching records before the failing one
+	wantIn := make([]int, 0, n)
+	for i := 0; i < kf; i++ {
+		if o.pattern[i] == 1 {
+			k++
+			wantIn = append(wantIn, i)
+		}
+	}
+	m := 0
+	if o.plugCalls > 0 {
+		m = len(o.plugOut)
+	}
+	cls := condShapeClass(o.pattern[:kf], m)
+	if k == 0 {
+		if o.plugCalls != 0 {
+			return "C09/cond-merge/plugin-input/" + cls, "plugin was called although no record matches the condition"
+		}
+	} else {
+		if o.plugCalls != 1 || len(o.plugIn) != len(wantIn) {
+			return "C09/cond-merge/plugin-input/" + cls,
+				fmt.Sprintf("plugin calls=%d, got %d records, want the %d matching ones", o.plugCalls, len(o.plugIn), len(wantIn))
+		}
+		for j, i := range wantIn {
+			if !sameRecord(o.plugIn[j], o.orig[i]) {
+				return "C09/cond-merge/plugin-input/" + cls, fmt.Sprintf("plugin input %d is not input record %d", j, i)
+			}
+		}
+	}
 	if k > 0 && m > k {
 		// documented: a single ErrorRecord "processor returned more records than input"
-		if len(r.res) == 1 {
-			if e, ok := r.res[0].(sdk.ErrorRecord); ok && e.Error != nil {
+		if len(o.res) == 1 {
+			if e, ok := o.res[0].(sdk.ErrorRecord); ok && e.Error != nil && !isCondError(o.res[0]) {
 				return "", ""
 			}
 		}
 		return "C09/cond-merge/long-output-not-refused",
 			fmt.Sprintf("plugin returned %d results for %d matching records; want the single documented ErrorRecord, got %d results (first: %s)",
-				m, k, len(r.res), kindOfResult(first(r.res)))
+				m, k, len(o.res), kindOfResult(first(o.res)))
 	}
-	if len(r.res) > n {
-		return "C09/cond-merge/length/" + cls, fmt.Sprintf("%d results for %d input records", len(r.res), n)
+	maxLen := kf
+	if failed {
+		maxLen = kf + 1
 	}
-	if (k == 0 || m == k) && len(r.res) != n {
-		return "C09/cond-merge/length/" + cls, fmt.Sprintf("%d results for %d input records although the plugin answered every matching record", len(r.res), n)
+	if len(o.res) > maxLen {
+		if failed {
+			return "C09/cond-merge/cond-error-misplaced/" + cls,
+				fmt.Sprintf("%d results although the condition of record %d fails to evaluate: records after it are not part of the output", len(o.res), kf)
+		}
+		return "C09/cond-merge/length/" + cls, fmt.Sprintf("%d results for %d input records", len(o.res), n)
+	}
+	if m == k && len(o.res) != maxLen {
+		if failed {
+			return "C09/cond-merge/cond-error-missing/" + cls,
+				fmt.Sprintf("%d results: every record before record %d has a result, so the condition error of record %d must be reported at index %d", len(o.res), kf, kf, kf)
+		}
+		return "C09/cond-merge/length/" + cls, fmt.Sprintf("%d results for %d input records although the plugin answered every matching record", len(o.res), n)
 	}
 	j := 0 // ordinal of the next matching record
-	for i := 0; i < len(r.res); i++ {
-		if c.Pattern[i] == 0 {
-			s, ok := r.res[i].(sdk.SingleRecord)
-			if !ok || !sameRecord(opencdc.Record(s), r.orig[i]) {
+	for i := 0; i < len(o.res); i++ {
+		if i == kf {
+			// the record whose condition fails: only its own condition error may stand here
+			if !isCondError(o.res[i]) {
+				return "C09/cond-merge/cond-error-misplaced/" + cls,
+					fmt.Sprintf("index %d belongs to the record whose condition fails to evaluate but holds %s", i, kindOfResult(o.res[i]))
+			}
+			continue
+		}
+		if isCondError(o.res[i]) {
+			return "C09/cond-merge/cond-error-misattributed/" + cls,
+				fmt.Sprintf("index %d (record id %q, condition evaluates fine) holds the condition error of record %d: %v", i, o.orig[i].Metadata[metaID], kf, o.res[i].(sdk.ErrorRecord).Error)
+		}
+		if o.pattern[i] == 0 {
+			s, ok := o.res[i].(sdk.SingleRecord)
+			if !ok || !sameRecord(opencdc.Record(s), o.orig[i]) {
 				return "C09/cond-merge/passthrough-changed/" + cls,
-					fmt.Sprintf("index %d: the record does not match the condition but the result is %s (id %q), not the unchanged record", i, kindOfResult(r.res[i]), idOfResult(r.res[i]))
+					fmt.Sprintf("index %d: the record does not match the condition but the result is %s (id %q), not the unchanged record", i, kindOfResult(o.res[i]), idOfResult(o.res[i]))
 			}
 			continue
 		}
 		if j < m {
-			if !sameResult(r.res[i], r.plug.out[j]) {
+			if !sameResult(o.res[i], o.plugOut[j]) {
 				return "C09/cond-merge/misaligned/" + cls,
-					fmt.Sprintf("index %d belongs to matching record #%d but holds %s (id %q), want the plugin's result %d (%s)", i, j, kindOfResult(r.res[i]), idOfResult(r.res[i]), j, kindOfResult(r.plug.out[j]))
+					fmt.Sprintf("index %d belongs to matching record #%d but holds %s (id %q), want the plugin's result %d (%s)", i, j, kindOfResult(o.res[i]), idOfResult(o.res[i]), j, kindOfResult(o.plugOut[j]))
 			}
-		} else {
-			// the plugin gave no result for this record: only "no result" (nil) or an error may stand here
-			switch x := r.res[i].(type) {
-			case nil:
-			case sdk.ErrorRecord:
-				_ = x
-			default:
-				return "C09/cond-merge/misaligned/" + cls,
-					fmt.Sprintf("index %d belongs to matching record #%d for which the plugin returned nothing, but holds %s (id %q)", i, j, kindOfResult(r.res[i]), idOfResult(r.res[i]))
-			}
+		} else if o.res[i] != nil {
+			// the plugin gave no result for this record: the results end before it (documented);
+			// a nil ("no result") is the only entry that attributes nothing to the record
+			return "C09/cond-merge/misaligned/" + cls,
+				fmt.Sprintf("index %d belongs to matching record #%d for which the plugin returned nothing, but holds %s (id %q)", i, j, kindOfResult(o.res[i]), idOfResult(o.res[i]))
 		}
 		j++
 	}
@@ -329,6 +412,13 @@ func genCondCase(t *rapid.T) CondCase {
 	c.Cond = rapid.IntRange(0, 9).Draw(t, "cond") > 0
 	n := rapid.IntRange(1, 10).Draw(t, "n")
 	c.Pattern = rapid.SliceOfN(rapid.IntRange(0, 1), n, n).Draw(t, "pattern")
+	c.Fail = make([]int, n)
+	if c.Cond && chance(t, "evalfails", 45) {
+		c.Fail[rapid.IntRange(0, n-1).Draw(t, "failat")] = 1
+		if chance(t, "evalfails2", 20) {
+			c.Fail[rapid.IntRange(0, n-1).Draw(t, "failat2")] = 1
+		}
+	}
 	k := c.matching()
 	if !c.Cond {
 		k = n
@@ -379,8 +469,15 @@ func execCond(t fataler, st *pbt.Stats, c CondCase) {
 	if c.Cond {
 		want = c.matching()
 	}
+	evalFails := c.Cond && c.evaluated() < len(c.Pattern)
 	nontrivial := len(c.Out) != want || hasNil
 	classes := []string{"cond:" + cls}
+	if evalFails {
+		classes = append(classes, "cond:eval-error")
+		if len(c.Out) < want {
+			classes = append(classes, "cond:eval-error+short-output")
+		}
+	}
 	if hasNil {
 		classes = append(classes, "cond:out-contains-nil")
 	}
